@@ -10,7 +10,15 @@ RULE = ("seeded circuits (asymmetric product states by X / RY(rational angle) on
         "gates incl. 2-qubit gates on gapped / descending qubits), explicit Gaussian-rational amplitude vectors, widths 1-5 "
         "(thorough 1-6), n_samples on both sides of 2^n, random Z-type / general Pauli operators; plus direct frequency "
         "dicts and probability vectors.  non-trivial: register width >= 2 and the outcome distribution (state / "
-        "frequency dict / probability vector) is NOT invariant under reversing the qubit order; distinct = canonical JSON")
+        "frequency dict / probability vector) is NOT invariant under reversing the qubit order; distinct = canonical JSON.  "
+        "Histories: every views case may be observed TWICE on the same long-lived objects (second pass in the opposite "
+        "order, after the returned objects of the first pass were edited by the caller); `session` = several sibling "
+        "views steps (each differs from its predecessor in ONE component: operator / width / one gate / one angle / "
+        "n_samples across 2^n / qubit relabelling / equal-but-not-identical rebuild / same custom-gate name with another "
+        "matrix) on ONE simulator, ONE operator object per spec, optionally ONE Measurements container, or ONE "
+        "Wavefunction edited through __setitem__; `meas` = one Measurements object whose public `bitstrings` is "
+        "replaced / edited / extended between get_counts / get_distribution / get_expectation_values calls "
+        "(non-trivial: width >= 2, a mutation between two queries, a state not invariant under qubit reversal)")
 TRUSTED = [
     "rng.choice(a, size=n, p=p) returns exactly n elements of a, never one whose probability is 0, and equals "
     "a[default_rng(seed).choice(len(a), size=n, p=p)] for the same seed (the harness recovers the drawn indices this way)",
@@ -24,6 +32,10 @@ TRUSTED = [
     "expectation values); sampled tuples, keys, key order and counts are compared exactly",
 ]
 ASSUMPTIONS = [
+    "a Measurements / Wavefunction / simulator object is a plain container: its views are functions of the tuples / "
+    "amplitudes it holds NOW and of the arguments of the call (the model is history-free; every step of a history is "
+    "judged as an independent case); `Measurements.bitstrings` is a public mutable attribute (the test-suite assigns and "
+    "extends it)",
     "MeasurementOutcomeDistribution(dict) keeps keys, order and (for a normalised vector) values (normalisation is C17's concern)",
     "gate matrices are those of OQ.Model.Gates (validated by C01/C02); the oracle takes the 2^k x 2^k gate matrix from the "
     "library and embeds it by independent bit manipulation",
@@ -56,13 +68,68 @@ def _cplx(c):
     return complex(float(unrat(c[0])), float(unrat(c[1])))
 
 
-def _build_operator(m, opspec):
-    terms = []
-    for t in opspec:
-        c = _cplx(t["c"])
-        coeff = c.real if c.imag == 0 else c
-        terms.append(m["PauliTerm"]({int(q): p for q, p in t["ops"]}, coeff))
+def _build_term(m, t, form):
+    c = _cplx(t["c"])
+    coeff = c.real if c.imag == 0 else c
+    ops = [(int(q), p) for q, p in t["ops"]]
+    if form == "iter":        # PauliTerm.from_iterable([(op, index), …], coefficient)
+        return m["PauliTerm"].from_iterable([(p, q) for q, p in ops], coeff)
+    if form == "str":         # PauliTerm("Z0*Z2", coefficient); the constant term is "I0"
+        return m["PauliTerm"]("*".join(f"{p}{q}" for q, p in ops) if ops else "I0", coeff)
+    if form == "pad":         # explicit identity factors on the other qubits below the highest one (dropped by PauliTerm)
+        d = {q: p for q, p in ops}
+        for q in range(max(d) if d else 0):
+            d.setdefault(q, "I")
+        return m["PauliTerm"](d, coeff)
+    return m["PauliTerm"]({q: p for q, p in ops}, coeff)
+
+
+def _build_operator(m, opspec, form=None):
+    """the operator object of a spec.  `form` = how it is written down (dict / from_iterable / string / padded with
+    explicit identities / a bare PauliTerm instead of a one-term PauliSum): all denote the same operator"""
+    terms = [_build_term(m, t, form) for t in opspec]
+    if form == "single" and len(terms) == 1:
+        return terms[0]
     return m["PauliSum"](terms)
+
+
+# exact unitaries available to a custom gate definition (same NAME, different CONTENT across the circuits of a session)
+_CUSTOM_MATS = {
+    "x": [[[0, 0], [1, 0]], [[1, 0], [0, 0]]],
+    "y": [[[0, 0], [0, -1]], [[0, 1], [0, 0]]],
+    "z": [[[1, 0], [0, 0]], [[0, 0], [-1, 0]]],
+    "s": [[[1, 0], [0, 0]], [[0, 0], [0, 1]]],
+    "cx": [[[1, 0], [0, 0], [0, 0], [0, 0]], [[0, 0], [1, 0], [0, 0], [0, 0]],
+           [[0, 0], [0, 0], [0, 0], [1, 0]], [[0, 0], [0, 0], [1, 0], [0, 0]]],
+    "xc": [[[1, 0], [0, 0], [0, 0], [0, 0]], [[0, 0], [0, 0], [0, 0], [1, 0]],
+           [[0, 0], [0, 0], [1, 0], [0, 0]], [[0, 0], [1, 0], [0, 0], [0, 0]]],
+    "xi": [[[0, 0], [0, 0], [1, 0], [0, 0]], [[0, 0], [0, 0], [0, 0], [1, 0]],
+           [[1, 0], [0, 0], [0, 0], [0, 0]], [[0, 0], [1, 0], [0, 0], [0, 0]]],
+}
+
+
+def _build_circuit(m, cspec, param=None):
+    """(circuit, symbols_map): with `param` every angle of a built-in parametric gate is a sympy Symbol and
+    symbols_map holds the numbers (the numeric circuit is then circuit.bind(symbols_map))"""
+    if not param:
+        return circ.build_circuit(cspec), None
+    import sympy
+    import orquestra.quantum.circuits as oqc
+    ops, smap = [], {}
+    for i, o in enumerate(cspec["ops"]):
+        g = o["g"]
+        inner = g.get("controlled", g)
+        if "gate" in inner and inner["angles"]:
+            syms = [sympy.Symbol(f"th_{i}_{j}") for j in range(len(inner["angles"]))]
+            for sy, a in zip(syms, inner["angles"]):
+                smap[sy] = circ.theta_of(a)
+            gate = getattr(oqc, inner["gate"])(*syms)
+            if "controlled" in g:
+                gate = gate.controlled(g["k"])
+            ops.append(gate(*o["qs"]))
+        else:
+            ops.append(circ.build_gate(g)(*o["qs"]))
+    return oqc.Circuit(ops, n_qubits=cspec.get("n")), smap
 
 
 def _width(case):
@@ -149,6 +216,67 @@ def corpus():
         {"kind": "freq", "marked": [2], "freqs": [["10", 2], ["01", 1]]},
         {"kind": "dist", "probs": [rat(f(1, 2)), 0, rat(f(1, 4)), rat(f(1, 4))]},
     ]
+    # ---- histories on long-lived objects / siblings / exotic-but-legal shapes (round 3)
+    c3b = {"n": 3, "ops": [_x(0), _x(1), _ry(f(4, 5), f(3, 5), 2)]}
+    zc = [_term(f(5, 2), []), _term(1, [[0, "Z"]])]           # constant term + operator narrower than the register
+    out += [
+        # one simulator, one operator object, one Measurements container refilled with the same number of shots
+        {"kind": "session", "seed": 11, "container": True, "steps": [
+            {"kind": "views", "circuit": c3, "n_samples": 6, "seed": 11, "operator": zs, "twice": "plain"},
+            {"kind": "views", "circuit": c3b, "n_samples": 6, "seed": 11, "operator": zs, "twice": "poison"},
+            {"kind": "views", "circuit": c3, "n_samples": 6, "seed": 11, "operator": zc}]},
+        # the same operator object on registers of different widths; narrow operator with a constant term
+        {"kind": "session", "seed": 12, "container": False, "steps": [
+            {"kind": "views", "circuit": {"n": 2, "ops": [_x(1)]}, "n_samples": 5, "seed": 12, "operator": zc, "twice": "poison"},
+            {"kind": "views", "circuit": {"n": 4, "ops": [_x(1), _ry(f(3, 5), f(4, 5), 0), _ry(f(5, 13), f(12, 13), 3)]},
+             "n_samples": 17, "seed": 12, "operator": zc, "op_form": None},
+            {"kind": "views", "circuit": {"n": 3, "ops": [_x(1), _ry(f(3, 5), f(4, 5), 0)]}, "n_samples": 8, "seed": 12,
+             "operator": zc, "fresh": True}]},
+        # the same narrow operator first on a wide, then on a narrower register
+        {"kind": "session", "seed": 15, "container": True, "steps": [
+            {"kind": "views", "circuit": {"n": 4, "ops": [_ry(f(3, 5), f(4, 5), 0), _x(3), _x(1)]}, "n_samples": 9, "seed": 15, "operator": zc},
+            {"kind": "views", "circuit": {"n": 3, "ops": [_ry(f(3, 5), f(4, 5), 0), _x(1)]}, "n_samples": 9, "seed": 15, "operator": zc, "twice": "plain"},
+            {"kind": "views", "circuit": {"n": 2, "ops": [_ry(f(3, 5), f(4, 5), 0), _x(1)]}, "n_samples": 9, "seed": 15, "operator": zc}]},
+        # a controlled rotation (not symmetric in its qubits) on descending qubits: numeric, bound circuit, bound state
+        {"kind": "views", "circuit": {"n": 3, "ops": [_x(2), {"g": {"controlled": {"gate": "RY", "angles": [[rat(f(4, 5)), rat(f(3, 5))]]}, "k": 1}, "qs": [2, 0]}]},
+         "n_samples": 9, "seed": 6, "operator": zs, "twice": "plain"},
+        {"kind": "views", "circuit": {"n": 3, "ops": [_x(2), {"g": {"controlled": {"gate": "RY", "angles": [[rat(f(4, 5)), rat(f(3, 5))]]}, "k": 1}, "qs": [2, 0]}]},
+         "n_samples": 9, "seed": 6, "operator": zs, "param": "bind_wf"},
+        {"kind": "views", "circuit": {"n": 3, "ops": [_x(2), _x(1), {"g": {"controlled": {"gate": "RX", "angles": [[rat(f(5, 13)), rat(f(12, 13))]]}, "k": 2}, "qs": [1, 2, 0]}]},
+         "n_samples": 5, "seed": 6, "operator": zs, "param": "bind_circuit"},
+        # same custom-gate name, different matrix, on one simulator
+        {"kind": "session", "seed": 13, "container": False, "steps": [
+            {"kind": "views", "circuit": {"n": 3, "ops": [_x(0), {"g": {"custom": "cg", "m": _CUSTOM_MATS["cx"]}, "qs": [0, 2]}]},
+             "n_samples": 4, "seed": 13, "operator": zs},
+            {"kind": "views", "circuit": {"n": 3, "ops": [_x(0), {"g": {"custom": "cg", "m": _CUSTOM_MATS["xc"]}, "qs": [0, 2]}]},
+             "n_samples": 4, "seed": 13, "operator": zs}]},
+        # one Wavefunction object edited through __setitem__ (amplitudes 1 and 2 exchanged)
+        {"kind": "session", "seed": 14, "container": False, "steps": [
+            {"kind": "views", "amps": [[0, 0], ["3/5", 0], [0, "4/5"], [0, 0]], "n_samples": 6, "seed": 14,
+             "operator": [_term(1, [[0, "Z"]]), _term(1, [[1, "Z"]])], "twice": "poison"},
+            {"kind": "views", "amps": [[0, 0], [0, "4/5"], ["3/5", 0], [0, 0]], "n_samples": 6, "seed": 14, "setitem": [1, 2],
+             "operator": [_term(1, [[0, "Z"]]), _term(1, [[1, "Z"]])], "twice": "plain"}]},
+        # symbolic parameters bound before / after simulation; operator written as strings / padded / bare term
+        {"kind": "views", "circuit": c3, "n_samples": 9, "seed": 3, "operator": zs, "param": "bind_circuit", "op_form": "str", "twice": "poison"},
+        {"kind": "views", "circuit": c3, "n_samples": 7, "seed": 3, "operator": zs, "param": "bind_wf", "op_form": "pad"},
+        {"kind": "views", "circuit": c3, "n_samples": 7, "seed": 3, "operator": [_term(2, [[0, "Z"], [2, "Z"]])], "op_form": "single", "twice": "plain"},
+        {"kind": "views", "circuit": c3, "n_samples": 2000, "seed": 3, "operator": zc, "op_form": "iter"},
+        # one Measurements object: replaced shots (same number), single edits, extension, histogram, caller-edited results
+        {"kind": "meas", "init": {"how": "ctor", "tuples": [[1, 0, 1], [1, 0, 0], [1, 0, 1]]}, "ops": [
+            {"q": "counts"}, {"q": "ev", "operator": zs}, {"m": "replace", "tuples": [[1, 1, 1], [0, 1, 0], [1, 1, 1]]},
+            {"q": "counts"}, {"q": "ev", "operator": zs}, {"q": "dist"}, {"m": "set", "i": 1, "tuple": [0, 0, 1]},
+            {"q": "ev", "operator": zc}, {"q": "counts"}, {"m": "poison"}, {"q": "counts"}, {"q": "dist"},
+            {"m": "extend", "tuples": [[0, 0, 0]]}, {"q": "counts"}, {"m": "add_counts", "counts": [["110", 2]]},
+            {"q": "ev", "operator": zs}, {"m": "del", "i": 0}, {"q": "dist"}, {"m": "reverse"}, {"q": "counts"}]},
+        {"kind": "meas", "init": {"how": "from_counts", "tuples": [[0, 1], [1, 0], [0, 1]]}, "ops": [
+            {"q": "ev", "operator": [_term(1, [[0, "Z"]])], "op_form": "single"}, {"m": "replace", "tuples": [[1, 0], [1, 0], [0, 1]]},
+            {"q": "ev", "operator": [_term(1, [[0, "Z"]])], "op_form": "single"}, {"q": "counts"}]},
+        {"kind": "meas", "init": {"how": "np_int8", "tuples": [[0, 1, 1, 0], [0, 1, 1, 0], [1, 1, 0, 0], [0, 0, 0, 1]]}, "ops": [
+            {"q": "counts"}, {"q": "ev", "operator": [_term(1, [[0, "Z"]]), _term(3, [])]}, {"q": "dist"}]},
+        # wide count strings (beyond 64 positions), a zero count, marked qubits as a set
+        {"kind": "freq", "marked": [0, 69], "freqs": [["1" + "0" * 69, 3], ["0" * 69 + "1", 2], ["0" * 70, 0]], "marked_as": "set", "twice": True},
+        {"kind": "dist", "probs": [0, rat(f(1, 4)), 0, 0, rat(f(1, 4)), 0, rat(f(1, 2)), 0], "as": "list", "twice": True},
+    ]
     return out
 
 
@@ -168,8 +296,12 @@ def _random_operator(rng, n, ztype=True, allow_wide=False):
         c = Fraction(rng.choice([-1, 1]) * rng.randrange(1, 9), rng.choice([1, 1, 2, 4]))
         if rng.random() < 0.1:
             terms.append(_term([c, Fraction(rng.randrange(-4, 5), 2)], ops))
+        elif rng.random() < 0.04:
+            terms.append(_term(0, ops))                     # a term with coefficient zero is still a term
         else:
             terms.append(_term(c, ops))
+    if terms and rng.random() < 0.06:
+        terms.insert(rng.randrange(len(terms) + 1), {"c": list(terms[0]["c"]), "ops": [list(x) for x in terms[0]["ops"]]})  # the same term twice
     return terms
 
 
@@ -196,16 +328,20 @@ def _general_circuit(rng, n, exact_only):
     c = circ.random_circuit(rng, n, length, names=names, custom_prob=0.0)
     if c["n"] is None and not c["ops"]:
         c["n"] = n
-    if n >= 3 and rng.random() < 0.5:
-        # gates on three or more qubits in an arbitrary (rotated, descending, gapped) index order
-        k = rng.choice([2, 2, 3]) if n >= 4 else 2
+    if n >= 2 and rng.random() < 0.5:
+        # controlled gates (X, or a rotation: NOT symmetric in its qubits, and parametric) on two, three or more qubits
+        # in an arbitrary (rotated, descending, gapped) index order
+        k = 1 if n == 2 else rng.choice([1, 2, 2]) if n == 3 else rng.choice([1, 2, 2, 3])
         qs = rng.sample(range(n), k + 1)
         if rng.random() < 0.5:
             base = sorted(qs)
             r = rng.randrange(1, k + 1)
             qs = base[r:] + base[:r]       # a rotated index order
         pre = [{"g": {"gate": "X", "angles": []}, "qs": [q]} for q in qs[:k] if rng.random() < 0.8]
-        c["ops"] = pre + [{"g": {"controlled": {"gate": "X", "angles": []}, "k": k}, "qs": qs}] + c["ops"]
+        r = rng.random()
+        inner = ({"gate": "X", "angles": []} if r < 0.5 else
+                 {"gate": rng.choice(["RY", "RX"]), "angles": [circ.rat_angle(rng, axis_prob=0.05)]})
+        c["ops"] = pre + [{"g": {"controlled": inner, "k": k}, "qs": qs}] + c["ops"]
     return c
 
 
@@ -226,32 +362,304 @@ def _n_samples(rng, n):
     return rng.choice([1, 2, max(1, big - 1), big, big + 1, big + 1, 2 * big + 3, rng.randrange(1, 4 * big + 2)])
 
 
+def _decorate(rng, c):
+    """how the same case is driven: once / twice / twice with the returned objects edited in between; how the operator
+    is written down; whether the angles are symbols bound before or after the simulation"""
+    r = rng.random() * (2.2 if _width(c) >= 5 else 1.0)     # (wide registers: the library's lifting is slow)
+    if r < 0.45:
+        c["twice"] = "poison"
+    elif r < 0.65:
+        c["twice"] = "plain"
+    if c["operator"] and rng.random() < 0.4:
+        form = rng.choice(["iter", "str", "pad", "single"])
+        if form != "single" or len(c["operator"]) == 1:
+            c["op_form"] = form
+    if "circuit" in c and _width(c) <= 3 and len(c["circuit"]["ops"]) <= 4 and rng.random() < 0.3:
+        gs = [o["g"].get("controlled", o["g"]) for o in c["circuit"]["ops"]]
+        if all("gate" in g for g in gs) and any(g["angles"] for g in gs):
+            c["param"] = rng.choice(["bind_circuit", "bind_wf"])
+    return c
+
+
+def _narrow_operator(rng, n):
+    """Z-type operator that stops short of the last qubit(s), usually with a constant term"""
+    top = rng.randrange(0, max(1, n - 1))          # highest operator qubit <= n-2 (0 for n <= 2)
+    terms = []
+    if rng.random() < 0.7:
+        terms.append(_term(Fraction(rng.choice([-1, 1]) * rng.randrange(1, 9), rng.choice([1, 2, 4])), []))
+    for _ in range(rng.randrange(1, 3)):
+        qs = sorted(set([top] + [q for q in range(top) if rng.random() < 0.4]), reverse=rng.random() < 0.5)
+        terms.append(_term(Fraction(rng.choice([-1, 1]) * rng.randrange(1, 9), rng.choice([1, 2])), [[q, "Z"] for q in qs]))
+    rng.shuffle(terms)
+    return terms
+
+
+def _circuit_width(cs):
+    return _width({"circuit": cs})
+
+
+def _sibling(rng, prev, base):
+    """a step that differs from `prev` in exactly one component (same seed, run on the same long-lived objects)"""
+    import copy
+    st = copy.deepcopy({k: v for k, v in prev.items() if k not in ("fresh", "twice", "op_inplace")})
+    cs = st["circuit"]
+    n = _circuit_width(cs)
+    kind = rng.choice(["op", "op", "op_narrow", "wider", "gate+", "gate+", "angle", "ns", "relabel", "rebuild", "same",
+                       "custom", "custom", "back", "coeff", "coeff", "op_append", "move", "narrower", "narrower"])
+    if kind == "op":
+        st["operator"] = _random_operator(rng, n, ztype=rng.random() < 0.9)
+    elif kind == "op_narrow":
+        st["operator"] = _narrow_operator(rng, n)
+    elif kind == "coeff" and st["operator"]:
+        # the same Pauli strings with other coefficients (half of the time: the same PauliSum object, edited in place)
+        for t in st["operator"]:
+            t["c"] = [rat(Fraction(rng.choice([-1, 1]) * rng.randrange(1, 9), rng.choice([1, 2, 4]))), 0]
+        st["op_inplace"] = rng.random() < 0.5
+    elif kind == "op_append" and st["operator"] and st.get("op_form") != "single":
+        # one more term at the end of the same PauliSum object (its public `terms` list)
+        st["operator"] = st["operator"] + [rng.choice(_narrow_operator(rng, n) + [_term(3, [[n - 1, "Z"]])])]
+        st["op_inplace"] = True
+    elif kind == "wider" and n <= 4:
+        # one more qubit at the end (idle, or flipped): the same operator object now meets a wider register
+        cs["n"] = None if rng.random() < 0.5 else n + 1
+        cs["ops"] = cs["ops"] + [_x(n) if rng.random() < 0.6 or cs["n"] is None else {"g": {"gate": "I", "angles": []}, "qs": [n]}]
+    elif kind == "narrower" and n >= 2 and all(int(q) < n - 1 for t in st["operator"] for q, _ in t["ops"]):
+        # the last qubit goes away: the same operator object now meets a NARROWER register than before
+        cs["ops"] = [o for o in cs["ops"] if n - 1 not in o["qs"]]
+        cs["n"] = n - 1
+        st["n_samples"] = max(1, min(st["n_samples"], 2 ** n))
+    elif kind == "gate+" and n >= 1:
+        r = rng.random()
+        if r < 0.4 or n < 2:
+            new = _x(rng.randrange(n))
+        elif r < 0.7:
+            new = {"g": {"gate": "RY", "angles": [circ.rat_angle(rng, axis_prob=0.1)]}, "qs": [rng.randrange(n)]}
+        else:
+            new = {"g": {"gate": rng.choice(["CNOT", "SWAP", "CZ"]), "angles": []}, "qs": rng.sample(range(n), 2)}
+        pos = rng.choice([0, len(cs["ops"]), rng.randrange(len(cs["ops"]) + 1)])
+        cs["ops"] = cs["ops"][:pos] + [new] + cs["ops"][pos:]
+    elif kind == "angle":
+        idx = [i for i, o in enumerate(cs["ops"]) if o["g"].get("controlled", o["g"]).get("angles")]
+        if idx:
+            g = cs["ops"][rng.choice(idx)]["g"]
+            g = g.get("controlled", g)
+            g["angles"] = [circ.rat_angle(rng, axis_prob=0.1) for _ in g["angles"]]
+        else:
+            st["fresh"] = True
+    elif kind == "move" and cs["ops"] and n >= 2:
+        # the same gate on another qubit (tuple) of the same register
+        i = rng.randrange(len(cs["ops"]))
+        cs["ops"][i]["qs"] = rng.sample(range(n), len(cs["ops"][i]["qs"]))
+    elif kind == "ns":
+        big_ = 2 ** n
+        st["n_samples"] = big_ + 1 + rng.randrange(3) if st["n_samples"] <= big_ else rng.randrange(1, big_ + 1)
+    elif kind == "relabel" and n >= 2:
+        for o in cs["ops"]:
+            o["qs"] = [n - 1 - q for q in o["qs"]]
+        if cs.get("n") is None:
+            cs["n"] = n
+    elif kind == "custom" and n >= 1:
+        # a custom gate called "cg": the name stays, the matrix differs from circuit to circuit
+        old = [i for i, o in enumerate(cs["ops"]) if "custom" in o["g"]]
+        if old:
+            i = old[0]
+            k = len(cs["ops"][i]["qs"])
+            names = [nm for nm, m_ in _CUSTOM_MATS.items() if len(m_) == 2 ** k and m_ != cs["ops"][i]["g"]["m"]]
+            cs["ops"][i]["g"] = {"custom": "cg", "m": _CUSTOM_MATS[rng.choice(names)]}
+        else:
+            k = 2 if n >= 2 and rng.random() < 0.6 else 1
+            names = [nm for nm, m_ in _CUSTOM_MATS.items() if len(m_) == 2 ** k]
+            cs["ops"] = cs["ops"] + [{"g": {"custom": "cg", "m": _CUSTOM_MATS[rng.choice(names)]}, "qs": rng.sample(range(n), k)}]
+    elif kind == "back":
+        st = copy.deepcopy({k: v for k, v in base.items() if k not in ("fresh", "twice", "op_inplace")})
+    elif kind == "rebuild":
+        st["fresh"] = True
+    # ("same": the identical step once more)
+    r = rng.random()
+    if r < 0.35:
+        st["twice"] = "poison"
+    elif r < 0.5:
+        st["twice"] = "plain"
+    return st
+
+
+def _session(rng, max_n):
+    n = rng.choice([w for w in [2, 3, 3, 4, 4, 5] if w <= max_n])
+    seed = rng.randrange(2 ** 31)
+    if rng.random() < 0.6:
+        cs = _product_circuit(rng, n)
+        cs["n"] = n
+    else:
+        cs = _general_circuit(rng, n, exact_only=rng.random() < 0.3)
+    n = max(n, _circuit_width(cs))
+    base = {"kind": "views", "circuit": cs, "n_samples": _n_samples(rng, n), "seed": seed,
+            "operator": _narrow_operator(rng, n) if rng.random() < 0.3 else _random_operator(rng, n, ztype=rng.random() < 0.9)}
+    if rng.random() < 0.4:
+        base["twice"] = rng.choice(["plain", "poison"])
+    steps = [base]
+    for _ in range(rng.randrange(2, 5)):
+        steps.append(_sibling(rng, steps[-1], base))
+    return {"kind": "session", "seed": seed, "container": rng.random() < 0.6, "steps": steps,
+            "batch": rng.choice([None, "list", "scalar"])}
+
+
+def _amps_session(rng):
+    import copy
+    n = rng.choice([2, 2, 3, 3, 4])
+    seed = rng.randrange(2 ** 31)
+    amps = _random_amps(rng, n)
+    step = {"kind": "views", "amps": amps, "n_samples": _n_samples(rng, n), "seed": seed,
+            "operator": _random_operator(rng, n, ztype=True)}
+    steps = [step]
+    for _ in range(rng.randrange(2, 5)):
+        st = copy.deepcopy({k: v for k, v in steps[-1].items() if k not in ("twice", "setitem")})
+        r = rng.random()
+        if r < 0.65:
+            # exchange two different amplitudes through Wavefunction.__setitem__ (keeps the norm)
+            nz = [i for i, a in enumerate(st["amps"]) if a != [0, 0]]
+            i = rng.choice(nz)
+            j = rng.choice([x for x in range(len(st["amps"])) if st["amps"][x] != st["amps"][i]] or [i])
+            st["amps"][i], st["amps"][j] = st["amps"][j], st["amps"][i]
+            st["setitem"] = sorted([i, j]) if i != j else [i]
+        elif r < 0.85:
+            st["operator"] = _random_operator(rng, n, ztype=True)
+            st["setitem"] = []
+        else:
+            big_ = 2 ** n
+            st["n_samples"] = big_ + 1 if st["n_samples"] <= big_ else rng.randrange(1, big_ + 1)
+            st["setitem"] = []
+        if rng.random() < 0.5:
+            st["twice"] = rng.choice(["plain", "poison"])
+        steps.append(st)
+    return {"kind": "session", "seed": seed, "container": rng.random() < 0.4, "steps": steps}
+
+
+def _rand_tuple(rng, w):
+    return [rng.randrange(2) for _ in range(w)]
+
+
+def _meas_case(rng):
+    """one Measurements object: queries interleaved with edits of its public `bitstrings`"""
+    w = rng.choice([1, 2, 2, 3, 3, 3, 4, 4, 5, 6, 9, 12, 70])
+    pool = [_rand_tuple(rng, w) for _ in range(rng.randrange(2, 5))]
+    for t in pool[:2]:
+        if w >= 2 and t == t[::-1]:
+            t[0], t[-1] = 0, 1
+    shots = lambda k: [list(rng.choice(pool)) for _ in range(k)]  # noqa: E731
+    n0 = rng.randrange(1, 10)
+    how = rng.choice(["ctor", "ctor", "ctor", "from_counts", "add_counts", "np_int8", "np_int64"])
+    ops_pool = [_narrow_operator(rng, w), _random_operator(rng, min(w, 12), ztype=True) or [_term(1, [[0, "Z"]])],
+                [_term(Fraction(rng.randrange(1, 9), 2), [[q, "Z"] for q in sorted(rng.sample(range(w), rng.randrange(1, min(w, 4) + 1)))])]]
+
+    def query():
+        r = rng.random()
+        if r < 0.35:
+            return {"q": "counts"}
+        if r < 0.5:
+            return {"q": "dist"}
+        o = {"q": "ev", "operator": rng.choice(ops_pool)}
+        if rng.random() < 0.3:
+            form = rng.choice(["iter", "str", "pad", "single"])
+            if form != "single" or len(o["operator"]) == 1:
+                o["op_form"] = form
+        return o
+
+    cur = n0
+    ops = [query() for _ in range(rng.randrange(1, 3))]
+    for _ in range(rng.randrange(2, 6)):
+        r = rng.random()
+        if r < 0.35:
+            # other shots, the SAME number of them (the object's length does not change)
+            if rng.random() < 0.3:
+                pool.append(_rand_tuple(rng, w))
+            ops.append({"m": "replace", "tuples": shots(cur)})
+        elif r < 0.55:
+            t = _rand_tuple(rng, w) if rng.random() < 0.5 else list(rng.choice(pool))
+            ops.append({"m": "set", "i": rng.randrange(cur), "tuple": t})
+        elif r < 0.65:
+            k = rng.randrange(1, 4)
+            ops.append({"m": "extend", "tuples": shots(k)})
+            cur += k
+        elif r < 0.75:
+            cnts = {}
+            for _ in range(rng.randrange(1, 3)):
+                cnts["".join(map(str, rng.choice(pool)))] = rng.randrange(1, 4)
+            cnts = [[k_, v_] for k_, v_ in cnts.items()]      # a histogram: distinct count strings
+            ops.append({"m": "add_counts", "counts": cnts})
+            cur += sum(v for _, v in cnts)
+        elif r < 0.8 and cur >= 2:
+            ops.append({"m": "del", "i": rng.randrange(cur)})
+            cur -= 1
+            if rng.random() < 0.7:      # … and one other shot in: the length is what it was
+                ops.append({"m": "extend", "tuples": [_rand_tuple(rng, w)]})
+                cur += 1
+        elif r < 0.88:
+            ops.append({"m": "reverse"})
+        else:
+            ops.append({"m": "poison"})
+        for _ in range(rng.randrange(1, 3)):
+            ops.append(query())
+    return {"kind": "meas", "init": {"how": how, "tuples": shots(n0)}, "ops": ops}
+
+
 def generate(rng, tier):
     big = tier == "thorough"
     # width 6 costs ~0.5 s per case in the exact model (64x64 matrices of Q(zeta8) entries): a small share only
     widths = [1, 2, 2, 3, 3, 4, 4, 5, 5] + ([5, 6] if big else [])
     cases = []
     # asymmetric product states
-    for _ in range(700 if big else 90):
+    for _ in range(350 if big else 80):
         n = rng.choice(widths)
-        cases.append({"kind": "views", "circuit": _product_circuit(rng, n), "n_samples": _n_samples(rng, n),
-                      "seed": rng.randrange(2 ** 31), "operator": _random_operator(rng, n, ztype=rng.random() < 0.85)})
+        op = _narrow_operator(rng, n) if rng.random() < 0.15 else _random_operator(rng, n, ztype=rng.random() < 0.85)
+        cases.append(_decorate(rng, {"kind": "views", "circuit": _product_circuit(rng, n), "n_samples": _n_samples(rng, n),
+                                     "seed": rng.randrange(2 ** 31), "operator": op}))
     # general circuits (entangled states)
-    for _ in range(300 if big else 60):
+    for _ in range(160 if big else 55):
         n = rng.randrange(1, (5 if big else 4) + 1)
-        cases.append({"kind": "views", "circuit": _general_circuit(rng, n, exact_only=rng.random() < 0.3),
-                      "n_samples": _n_samples(rng, n), "seed": rng.randrange(2 ** 31),
-                      "operator": _random_operator(rng, n, ztype=rng.random() < 0.8)})
+        op = _narrow_operator(rng, n) if rng.random() < 0.15 else _random_operator(rng, n, ztype=rng.random() < 0.8)
+        cases.append(_decorate(rng, {"kind": "views", "circuit": _general_circuit(rng, n, exact_only=rng.random() < 0.3),
+                                     "n_samples": _n_samples(rng, n), "seed": rng.randrange(2 ** 31), "operator": op}))
     # explicit amplitude vectors
-    for _ in range(300 if big else 50):
+    for _ in range(160 if big else 40):
         n = rng.choice(widths)
-        cases.append({"kind": "views", "amps": _random_amps(rng, n), "n_samples": _n_samples(rng, n),
-                      "seed": rng.randrange(2 ** 31), "operator": _random_operator(rng, n, ztype=rng.random() < 0.85)})
+        cases.append(_decorate(rng, {"kind": "views", "amps": _random_amps(rng, n), "n_samples": _n_samples(rng, n),
+                                     "seed": rng.randrange(2 ** 31), "operator": _random_operator(rng, n, ztype=rng.random() < 0.85)}))
     # wide registers (explicit sparse amplitude vectors): both sampling regimes beyond 8 qubits
     for _ in range(12 if big else 4):
         n = rng.choice([9, 10])
-        cases.append({"kind": "views", "amps": _random_amps(rng, n), "n_samples": rng.choice([1, 3, 2 ** n - 1, 2 ** n + 1]),
-                      "seed": rng.randrange(2 ** 31), "operator": _random_operator(rng, n, ztype=True)})
+        cases.append(_decorate(rng, {"kind": "views", "amps": _random_amps(rng, n), "n_samples": rng.choice([1, 3, 2 ** n - 1, 2 ** n + 1]),
+                                     "seed": rng.randrange(2 ** 31), "operator": _random_operator(rng, n, ztype=True)}))
+    # wide registers through the simulator (oracle only): few gates on far-apart / descending qubits
+    for _ in range(6 if big else 3):
+        n = rng.choice([9, 9, 10])
+        qs = rng.sample(range(n), 4)
+        ops = [_x(qs[0]), {"g": {"gate": "RY", "angles": [circ.rat_angle(rng, axis_prob=0.0)]}, "qs": [qs[1]]},
+               {"g": {"gate": "CNOT", "angles": []}, "qs": [qs[1], qs[2]]}]
+        if rng.random() < 0.5:
+            ops.append(_x(qs[3]))
+        zq = [[q, "Z"] for q in rng.sample(qs, 2)]
+        cases.append({"kind": "views", "circuit": {"n": n, "ops": ops}, "n_samples": rng.choice([1, 5, 2 ** n + 1]),
+                      "seed": rng.randrange(2 ** 31), "operator": [_term(2, zq), _term(Fraction(3, 2), [])]})
+    # symbolic angles (the library's second code path): a controlled rotation – not symmetric in its qubits – on
+    # descending / rotated / gapped qubits, bound after (bind_wf) or before (bind_circuit) the simulation
+    for _ in range(50 if big else 12):
+        n = rng.choice([2, 3, 3])
+        k = 1 if n == 2 or rng.random() < 0.6 else 2
+        qs = rng.sample(range(n), k + 1)
+        ops = [_x(q) for q in qs[:k] if rng.random() < 0.85]
+        ops.append({"g": {"controlled": {"gate": rng.choice(["RY", "RX"]), "angles": [circ.rat_angle(rng, axis_prob=0.0)]}, "k": k}, "qs": qs})
+        if rng.random() < 0.4:
+            ops.append({"g": {"gate": "RY", "angles": [circ.rat_angle(rng, axis_prob=0.0)]}, "qs": [rng.randrange(n)]})
+        c = {"kind": "views", "circuit": {"n": n, "ops": ops}, "n_samples": _n_samples(rng, n), "seed": rng.randrange(2 ** 31),
+             "operator": _random_operator(rng, n, ztype=True), "param": "bind_wf" if rng.random() < 0.7 else "bind_circuit"}
+        if rng.random() < 0.4:
+            c["twice"] = rng.choice(["plain", "poison"])
+        cases.append(c)
+    # many samples on a small register
+    for _ in range(10 if big else 3):
+        n = rng.randrange(1, 4)
+        cases.append(_decorate(rng, {"kind": "views", "circuit": _product_circuit(rng, n), "n_samples": rng.choice([1000, 4097, 2500]),
+                                     "seed": rng.randrange(2 ** 31), "operator": _random_operator(rng, n, ztype=True)}))
     # malformed stream: non-positive sample counts, operators wider than the register
     for _ in range(60 if big else 12):
         n = rng.randrange(1, 4)
@@ -261,19 +669,51 @@ def generate(rng, tier):
             c["n_samples"] = rng.choice([0, -1, -5])
         else:
             c["operator"] = _random_operator(rng, n, allow_wide=True)
+        if rng.random() < 0.3:
+            c["twice"] = "plain"
         cases.append(c)
+    # sibling steps on one simulator / one operator object / one Measurements container
+    for _ in range(100 if big else 32):
+        cases.append(_session(rng, 5 if big else 4))
+    # one Wavefunction object edited in place between the views
+    for _ in range(40 if big else 10):
+        cases.append(_amps_session(rng))
+    # one Measurements object edited between the queries
+    for _ in range(300 if big else 50):
+        cases.append(_meas_case(rng))
     # frequencies
     for _ in range(500 if big else 70):
-        w = rng.randrange(1, 7)
-        keys = rng.sample(range(2 ** w), rng.randrange(1, min(2 ** w, 6) + 1))
-        freqs = [[format(k, f"0{w}b"), rng.randrange(1, 40)] for k in keys]
-        marked = rng.sample(range(w), rng.randrange(0, w + 1))
+        w = rng.choice([1, 2, 3, 4, 5, 6, 6, 9, 12, 33, 64, 65, 70]) if rng.random() < 0.3 else rng.randrange(1, 7)
+        nk = rng.randrange(1, min(2 ** w, 6) + 1)
+        keys = set()
+        while len(keys) < nk:
+            keys.add("".join(str(rng.randrange(2)) for _ in range(w)))
+        keys = sorted(keys) if rng.random() < 0.3 else rng.sample(sorted(keys), nk)
+        freqs = [[k, rng.choice([rng.randrange(1, 40), rng.randrange(1, 40), 10 ** rng.randrange(3, 10) + rng.randrange(100)])] for k in keys]
+        if len(freqs) >= 2 and rng.random() < 0.1:
+            freqs[rng.randrange(len(freqs))][1] = 0        # an outcome listed with count zero
+            if not any(v for _, v in freqs):
+                freqs[0][1] = 1
+        marked = rng.sample(range(w), rng.randrange(0, min(w, 8) + 1))
+        if rng.random() < 0.3:
+            marked.sort(reverse=rng.random() < 0.5)
+        c = {"kind": "freq", "marked": marked, "freqs": freqs}
         if rng.random() < 0.1:
             marked.append(w + rng.randrange(0, 2))
-        cases.append({"kind": "freq", "marked": marked, "freqs": freqs})
+        else:
+            how = rng.choice([None, None, "tuple", "set", "frozenset", "range"])
+            if how == "range":
+                if marked and sorted(marked) == list(range(min(marked), max(marked) + 1)):
+                    c["marked"] = sorted(marked)
+                    c["marked_as"] = how
+            elif how:
+                c["marked_as"] = how
+        if rng.random() < 0.4:
+            c["twice"] = True
+        cases.append(c)
     # probability vectors (dyadic: exact in doubles)
     for _ in range(200 if big else 30):
-        n = rng.randrange(1, 6)
+        n = rng.choice([6, 7, 8, 9, 10]) if rng.random() < 0.15 else rng.randrange(1, 6)
         dim = 2 ** n
         den = rng.choice([4, 8, 16, 64])
         cuts = sorted(rng.randrange(0, den + 1) for _ in range(min(dim, 5) - 1))
@@ -281,23 +721,48 @@ def generate(rng, tier):
         probs = [0] * dim
         for i, p in zip(rng.sample(range(dim), len(parts)), parts):
             probs[i] = rat(Fraction(p, den))
-        cases.append({"kind": "dist", "probs": probs})
+        c = {"kind": "dist", "probs": probs}
+        if rng.random() < 0.3:
+            c["as"] = "list"
+        if rng.random() < 0.4:
+            c["twice"] = True
+        cases.append(c)
     return cases
 
 
 # ----------------------------------------------------------------------------------------- reference (oracle side)
-def _ref_state(case):
+def _ref_state(case, start=0):
     """numpy reference state of a views case: explicit amplitudes, or the circuit's gates (matrices taken from the
-    library) embedded by independent bit manipulation, qubit 0 = most significant bit"""
+    library) embedded by independent bit manipulation, qubit 0 = most significant bit, applied to basis state `start`"""
     import numpy as np
     if "amps" in case:
         return np.array([_cplx(a) for a in case["amps"]], dtype=complex)
+    # (memo of this reference computation only – complete key: the canonical circuit spec and the start index; the
+    #  oracle, the second pass and nontrivial() all ask for the same state)
+    key = (common.canon(case["circuit"]), start)
+    if key in _REF_MEMO:
+        return _REF_MEMO[key]
+    state = _ref_state_uncached(case, start)
+    state.setflags(write=False)
+    if len(_REF_MEMO) > 20000:
+        _REF_MEMO.clear()
+    _REF_MEMO[key] = state
+    return state
+
+
+_REF_MEMO = {}
+
+
+def _ref_state_uncached(case, start):
+    import numpy as np
     n = _width(case)
     state = np.zeros(2 ** n, dtype=complex)
-    state[0] = 1
+    state[start] = 1
     for o in case["circuit"]["ops"]:
-        g = circ.build_gate(o["g"])
-        mat = circ.impl_matrix_to_numpy(g.matrix)
+        if "custom" in o["g"]:
+            mat = circ.numpy_matrix(o["g"]["m"])       # the matrix the circuit's author wrote down
+        else:
+            mat = circ.impl_matrix_to_numpy(circ.build_gate(o["g"]).matrix)
         state = circ.embed_reference(mat, o["qs"], n) @ state
     return state
 
@@ -362,6 +827,19 @@ def nontrivial(c):
     if k == "dist":
         n = int(math.log2(len(c["probs"])))
         return n >= 2 and not _reversal_invariant([float(unrat(p)) for p in c["probs"]], n)
+    if k == "session":
+        return len(c["steps"]) >= 2 and any(nontrivial(st) for st in c["steps"])
+    if k == "meas":
+        trace, _ = _meas_trace(c)
+        seen_q, mutated_between = False, False
+        for o in c["ops"]:
+            if "q" in o:
+                mutated_between = mutated_between or (seen_q == "m")
+                seen_q = seen_q or True
+            elif seen_q and o["m"] != "poison":
+                seen_q = "m"
+        asym = any(len(t) >= 2 and st.count(t) != st.count(t[::-1]) for _, st in trace for t in st)
+        return mutated_between and asym
     return False
 
 
@@ -376,74 +854,445 @@ def _canon_samples(bitstrings):
     return out
 
 
+def _canon_kv(d, keyf):
+    return [[keyf(k), float(v)] for k, v in d.items()]
+
+
+def _bits_of_key(key):
+    return [int(b) for b in key]
+
+
+def _observe(m, c, h, poison, backwards):
+    """one pass over every view the property names, on the long-lived objects in `h`.  With `poison`, every object the
+    library hands back is edited by the caller right after it was recorded (a correct library never sees that again)."""
+    np = m["np"]
+    ns, seed, op = c["n_samples"], c["seed"], h["op"]
+    out = {}
+
+    def see_wf():
+        wf = _stage(h["wf"])
+        if _is_err(wf):
+            out["wf"] = wf
+            return
+        # (a Wavefunction obtained by binding a symbolic one stores its amplitudes as a column: flattened here)
+        amps = np.array(wf.amplitudes, dtype=complex).reshape(-1)
+        out["wf"] = [[float(a.real), float(a.imag)] for a in amps]
+        out["n_qubits"] = int(wf.n_qubits)
+        probs = wf.get_outcome_probs()
+        out["outcome_probs"] = [[str(k), float(np.ravel(v)[0])] for k, v in probs.items()]
+        if h.get("wf0") is not None:
+            # the documented default written out: initial_state = |0…0>
+            w0 = _stage(h["wf0"])
+            out["wf0"] = w0 if _is_err(w0) else [[float(a.real), float(a.imag)]
+                                                 for a in np.array(w0.amplitudes, dtype=complex).reshape(-1)]
+        if h.get("wfk") is not None:
+            # … and another basis state as the input (index = seed mod 2^n)
+            wk = _stage(h["wfk"])
+            out["wfk"] = wk if _is_err(wk) else [[float(a.real), float(a.imag)]
+                                                 for a in np.array(wk.amplitudes, dtype=complex).reshape(-1)]
+        if poison:
+            probs.clear()
+            pr = wf.get_probabilities()
+            if isinstance(pr, np.ndarray) and pr.ndim == 1:
+                pr[:] = pr[::-1].copy()
+            if not h["wf_is_state"] and isinstance(wf.amplitudes, np.ndarray):
+                a = wf.amplitudes      # a fresh result object: the simulator must not look at it again
+                a[:] = a[::-1].copy()
+
+    def see_dist():
+        d = _stage(h["dist"])
+        out["dist"] = d if _is_err(d) else _canon_kv(d.distribution_dict, _bits_of_key)
+        if poison and not _is_err(d):
+            d.distribution_dict.clear()
+
+    def see_meas():
+        meas = _stage(h["meas"])
+        if _is_err(meas):
+            out["samples"] = out["counts"] = out["measured"] = out["mdist"] = meas
+            return
+        box = h.get("box")
+        if box is not None:
+            # ONE long-lived Measurements container, refilled with the shots of every run (same number or not)
+            if box.get("obj") is None:
+                box["obj"] = meas
+            else:
+                box["obj"].bitstrings = meas.bitstrings
+            meas = box["obj"]
+        out["samples"] = _canon_samples(meas.bitstrings)
+        cnt = _stage(meas.get_counts)
+        out["counts"] = cnt if _is_err(cnt) else [[str(k), int(v)] for k, v in cnt.items()]
+        if poison and not _is_err(cnt):
+            cnt.clear()
+            cnt["2" * max(1, len(out["samples"][0]) if out["samples"] else 1)] = 7
+        ev = _stage(lambda: meas.get_expectation_values(op))
+        out["measured"] = ev if _is_err(ev) else [[float(complex(v).real), float(complex(v).imag)] for v in ev.values]
+        if poison and not _is_err(ev):
+            try:
+                ev.values[...] = 7.0
+            except Exception:
+                pass
+        if h.get("bessel") and len(meas.bitstrings) >= 2:
+            # Bessel's correction concerns the covariances only: the values are the same
+            evb = _stage(lambda: meas.get_expectation_values(op, use_bessel_correction=True))
+            out["measured_b"] = evb if _is_err(evb) else [[float(complex(v).real), float(complex(v).imag)] for v in evb.values]
+        md = _stage(meas.get_distribution) if len(meas.bitstrings) else {"err": "err:empty", "msg": ""}
+        out["mdist"] = md if _is_err(md) else _canon_kv(md.distribution_dict, _bits_of_key)
+        if poison and not _is_err(md):
+            md.distribution_dict.clear()
+        if poison:
+            cnt2 = _stage(meas.get_counts)
+            out["counts2"] = cnt2 if _is_err(cnt2) else [[str(k), int(v)] for k, v in cnt2.items()]
+            if box is None:
+                # the caller scribbles over the shots it was given; the next run must not hand them out again
+                meas.bitstrings[:] = [tuple(1 - int(b) for b in t) for t in meas.bitstrings]
+        if h.get("edist") is not None:
+            ed = _stage(h["edist"])
+            out["edist"] = ed if _is_err(ed) else _canon_kv(ed.distribution_dict, _bits_of_key)
+
+    def see_exact():
+        ex = _stage(h["exact"])
+        out["exact"] = ex if _is_err(ex) else float(ex)
+
+    steps = [see_wf, see_dist, see_meas, see_exact]
+    for f in (reversed(steps) if backwards else steps):
+        f()
+    if _is_err(out.get("wf")):
+        return {"wf": out["wf"]}
+    # glue for the model: the indices rng.choice drew (trusted law, see TRUSTED[0]); same call shape as the code
+    if _is_err(out["samples"]):
+        out["draws"] = []
+    else:
+        p = [x for _, x in out["outcome_probs"]]
+        dim = len(out["wf"])
+        if dim < ns:
+            out["draws"] = [int(i) for i in np.random.default_rng(seed).choice(dim + 1, size=ns, p=p + [0])]
+        else:
+            out["draws"] = [int(i) for i in np.random.default_rng(seed).choice(dim, size=ns, p=p)]
+    return out
+
+
+def _run_views(m, c, env):
+    """the views of one case; `env` carries the long-lived objects of a session (simulator, operator and circuit
+    objects by spec, Measurements container, Wavefunction)"""
+    np = m["np"]
+    ns, seed = c["n_samples"], c["seed"]
+    ops_reg = env.setdefault("operators", {})
+    okey = common.canon([c["operator"], c.get("op_form")])
+    last = env.get("last_op")
+    if c.get("op_inplace") and last is not None and _inplace_ok(last[1], c["operator"]) and last[2] == c.get("op_form") \
+            and isinstance(last[0], m["PauliSum"]) and isinstance(last[0].terms, list):
+        # the SAME PauliSum object, edited through its public attributes (term.coefficient, sum.terms)
+        obj, old_spec = last[0], last[1]
+        for term_obj, t in zip(obj.terms, c["operator"]):
+            z = _cplx(t["c"])
+            term_obj.coefficient = z.real if z.imag == 0 else z
+        for t in c["operator"][len(old_spec):]:
+            obj.terms.append(_build_term(m, t, c.get("op_form")))
+        for k_ in [k_ for k_, v_ in ops_reg.items() if v_ is obj]:
+            del ops_reg[k_]
+        ops_reg[okey] = obj
+    elif c.get("fresh") or okey not in ops_reg:
+        ops_reg[okey] = _build_operator(m, c["operator"], c.get("op_form"))
+    op = ops_reg[okey]
+    env["last_op"] = (op, c["operator"], c.get("op_form"))
+    h = {"op": op, "box": env.get("box"), "bessel": bool(c.get("twice"))}
+    if "amps" in c:
+        wf = env.get("wf")
+        if wf is not None and c.get("setitem") is not None:
+            # the SAME Wavefunction object, edited through __setitem__ (fancy index: a permutation of amplitudes)
+            idx = [int(i) for i in c["setitem"]]
+            r = _stage(lambda: wf.__setitem__(idx, [_cplx(c["amps"][i]) for i in idx]))
+            if _is_err(r):
+                return {"wf": r}
+        else:
+            wf = _stage(lambda: m["Wavefunction"](np.array([_cplx(a) for a in c["amps"]], dtype=complex)))
+            if _is_err(wf):
+                return {"wf": wf}
+            if "wf" in env:
+                env["wf"] = wf
+        h.update(wf=lambda: wf, wf_is_state=True,
+                 dist=lambda: m["create_dist"](wf.get_probabilities()),
+                 meas=lambda: m["Measurements"](m["sample"](wf, ns, seed)),
+                 exact=lambda: m["get_ev"](op, wf).real)
+    else:
+        circ_reg = env.setdefault("circuits", {})
+        ckey = common.canon([c["circuit"], c.get("param")])
+        if c.get("fresh") or ckey not in circ_reg:
+            circ_reg[ckey] = _build_circuit(m, c["circuit"], c.get("param"))
+        circuit, smap = circ_reg[ckey]
+        sim = env.get("sim")
+        if sim is None:
+            sim = m["Sim"](seed=seed)
+            if "sim" in env:
+                env["sim"] = sim
+        if smap is None:
+            get_wf = lambda: sim.get_wavefunction(circuit)  # noqa: E731
+            numeric = circuit
+        elif c["param"] == "bind_wf":
+            # symbolic simulation, numbers substituted into the state afterwards
+            get_wf = lambda: sim.get_wavefunction(circuit).bind(smap)  # noqa: E731
+            numeric = circuit.bind(smap)
+        else:
+            numeric = circuit.bind(smap)
+            get_wf = lambda: sim.get_wavefunction(numeric)  # noqa: E731
+        h.update(wf=get_wf, wf_is_state=False,
+                 dist=lambda: sim.get_measurement_outcome_distribution(numeric, None),
+                 meas=lambda: sim.run_and_measure(numeric, ns),
+                 exact=lambda: sim.get_exact_expectation_values(numeric, op))
+        if ns >= 1 and c.get("twice"):
+            h["edist"] = lambda: sim.get_measurement_outcome_distribution(numeric, ns)
+        if c.get("twice") and numeric.n_qubits >= 1:
+            def wf0():
+                e0 = np.zeros(2 ** numeric.n_qubits, dtype=complex)
+                e0[0] = 1
+                return sim.get_wavefunction(numeric, initial_state=e0)
+            h["wf0"] = wf0
+
+            def wfk():
+                ek = np.zeros(2 ** numeric.n_qubits, dtype=complex)
+                ek[seed % len(ek)] = 1
+                return sim.get_wavefunction(numeric, initial_state=ek)
+            h["wfk"] = wfk
+        if "numerics" in env:
+            env["numerics"].append(numeric)
+    poison = c.get("twice") == "poison"
+    out = _observe(m, c, h, poison, backwards=False)
+    if c.get("twice") and "samples" in out:
+        for extra in ("wf0", "wfk", "edist"):       # (observed once, in the first pass)
+            h.pop(extra, None)
+        h["bessel"] = False
+        out["again"] = _observe(m, c, h, poison, backwards=True)
+    return out
+
+
+def _inplace_ok(old_spec, new_spec):
+    """new_spec = old_spec with other coefficients and / or more terms at the end"""
+    return (0 < len(old_spec) <= len(new_spec)
+            and all(a["ops"] == b["ops"] for a, b in zip(old_spec, new_spec)))
+
+
+def _np_tuple(np, t, how):
+    if how == "np_int8":
+        return tuple(np.int8(b) for b in t)
+    if how == "np_int64":
+        return tuple(np.int64(b) for b in t)
+    return tuple(int(b) for b in t)
+
+
+def _counts_in_order(tuples):
+    d = {}
+    for t in tuples:
+        s = "".join(str(int(b)) for b in t)
+        d[s] = d.get(s, 0) + 1
+    return d
+
+
+def _run_meas(m, c):
+    """one Measurements object through a history of edits of its public `bitstrings` and of queries"""
+    np = m["np"]
+    init = c["init"]
+    how = init.get("how", "ctor")
+    tuples = [tuple(t) for t in init["tuples"]]
+    if how == "from_counts":
+        meas = m["Measurements"].from_counts(_counts_in_order(tuples))
+    elif how == "add_counts":
+        meas = m["Measurements"]()
+        meas.add_counts(_counts_in_order(tuples))
+    else:
+        meas = m["Measurements"]([_np_tuple(np, t, how) for t in tuples])
+    ops_reg = {}
+    res, last = [], {}
+    for o in c["ops"]:
+        if "q" in o:
+            if o["q"] == "counts":
+                r = _stage(meas.get_counts)
+                last["counts"] = r
+                res.append(r if _is_err(r) else [[str(k), int(v)] for k, v in r.items()])
+            elif o["q"] == "dist":
+                r = _stage(meas.get_distribution)
+                last["dist"] = r
+                res.append(r if _is_err(r) else _canon_kv(r.distribution_dict, _bits_of_key))
+            else:
+                key = common.canon([o["operator"], o.get("op_form")])
+                if key not in ops_reg:
+                    ops_reg[key] = _build_operator(m, o["operator"], o.get("op_form"))
+                r = _stage(lambda: meas.get_expectation_values(ops_reg[key]))
+                last["ev"] = r
+                res.append(r if _is_err(r) else [[float(complex(v).real), float(complex(v).imag)] for v in r.values])
+            continue
+        k = o["m"]
+        if k == "replace":
+            meas.bitstrings = [tuple(t) for t in o["tuples"]]
+        elif k == "set":
+            meas.bitstrings[o["i"]] = tuple(o["tuple"])
+        elif k == "extend":
+            meas.bitstrings += [tuple(t) for t in o["tuples"]]
+        elif k == "add_counts":
+            meas.add_counts({s_: v for s_, v in o["counts"]})
+        elif k == "del":
+            del meas.bitstrings[o["i"]]
+        elif k == "reverse":
+            meas.bitstrings.reverse()
+        elif k == "poison":
+            # the caller edits what it was handed by the previous queries
+            r = last.get("counts")
+            if isinstance(r, dict) and not _is_err(r):
+                for key in list(r):
+                    r[key] += 3
+                r["2"] = 1
+            r = last.get("dist")
+            if r is not None and not _is_err(r):
+                r.distribution_dict.clear()
+            r = last.get("ev")
+            if r is not None and not _is_err(r):
+                try:
+                    r.values[...] = 7.0
+                except Exception:
+                    pass
+    return {"q": res, "final": _canon_samples(meas.bitstrings)}
+
+
+def _run_session(m, c):
+    env = {"sim": None, "operators": {}, "circuits": {}}
+    if c.get("container"):
+        env["box"] = {"obj": None}
+    if c["steps"] and "amps" in c["steps"][0]:
+        env["wf"] = None
+    if c.get("batch"):
+        env["numerics"] = []
+    outs = []
+    for st in c["steps"]:
+        try:
+            outs.append(_run_views(m, st, env))
+        except Exception as e:  # recorded per step; the oracle fails the step
+            outs.append({"exc": type(e).__name__, "msg": str(e)[:200]})
+    res = {"steps": outs}
+    if c.get("batch") and len(env["numerics"]) == len(c["steps"]) and env.get("sim") is not None:
+        # the circuits of all steps once more, as ONE batch on the same simulator
+        nss = [st["n_samples"] for st in c["steps"]]
+        arg = nss[0] if c["batch"] == "scalar" and len(set(nss)) == 1 else nss
+        ms = _stage(lambda: env["sim"].run_batch_and_measure(env["numerics"], arg))
+        res["batch"] = ms if _is_err(ms) else [_canon_samples(x.bitstrings) for x in ms]
+    return res
+
+
+def _marked_as(marked, how):
+    if how == "tuple":
+        return tuple(marked)
+    if how == "set":
+        return set(marked)
+    if how == "frozenset":
+        return frozenset(marked)
+    if how == "range":
+        return range(marked[0], marked[-1] + 1) if marked else range(0)
+    return list(marked)
+
+
 def run_impl(c):
     m = _mods()
     np = m["np"]
     k = c["kind"]
     if k == "freq":
-        r = _stage(lambda: m["freq_ev"](c["marked"], {s: v for s, v in c["freqs"]}))
-        return r if _is_err(r) else {"value": float(r)}
+        freqs = {s: v for s, v in c["freqs"]}
+        marked = _marked_as(c["marked"], c.get("marked_as"))
+        r = _stage(lambda: m["freq_ev"](marked, freqs))
+        if _is_err(r):
+            return r
+        out = {"value": float(r)}
+        if c.get("twice"):
+            # the same argument objects again (a function that consumed / reordered / rewrote them shows here)
+            r2 = _stage(lambda: m["freq_ev"](marked, freqs))
+            out["value2"] = r2 if _is_err(r2) else float(r2)
+        return out
     if k == "dist":
-        d = m["create_dist"](np.array([float(unrat(p)) for p in c["probs"]]))
-        return {"dist": [[[int(b) for b in key], float(v)] for key, v in d.distribution_dict.items()]}
-    out = {}
-    op = _build_operator(m, c["operator"])
-    ns, seed = c["n_samples"], c["seed"]
-    if "amps" in c:
-        wf = _stage(lambda: m["Wavefunction"](np.array([_cplx(a) for a in c["amps"]], dtype=complex)))
-        if _is_err(wf):
-            return {"wf": wf}
-        dist_fn = lambda: m["create_dist"](wf.get_probabilities())  # noqa: E731
-        meas_fn = lambda: m["Measurements"](m["sample"](wf, ns, seed))  # noqa: E731
-        exact_fn = lambda: m["get_ev"](op, wf).real  # noqa: E731
-    else:
-        circuit = circ.build_circuit(c["circuit"])
-        sim = m["Sim"](seed=seed)
-        wf = _stage(lambda: sim.get_wavefunction(circuit))
-        if _is_err(wf):
-            return {"wf": wf}
-        dist_fn = lambda: sim.get_measurement_outcome_distribution(circuit, None)  # noqa: E731
-        meas_fn = lambda: sim.run_and_measure(circuit, ns)  # noqa: E731
-        exact_fn = lambda: sim.get_exact_expectation_values(circuit, op)  # noqa: E731
-    amps = np.asarray(wf.amplitudes, dtype=complex)
-    out["wf"] = [[float(a.real), float(a.imag)] for a in amps]
-    out["n_qubits"] = int(wf.n_qubits)
-    probs_items = list(wf.get_outcome_probs().items())
-    out["outcome_probs"] = [[str(s), float(p)] for s, p in probs_items]
-    d = _stage(dist_fn)
-    out["dist"] = d if _is_err(d) else [[[int(b) for b in key], float(v)] for key, v in d.distribution_dict.items()]
-    meas = _stage(meas_fn)
-    if _is_err(meas):
-        out["samples"] = out["counts"] = out["measured"] = meas
-        out["draws"] = []
-    else:
-        out["samples"] = _canon_samples(meas.bitstrings)
-        cnt = _stage(meas.get_counts)
-        out["counts"] = cnt if _is_err(cnt) else [[str(s), int(v)] for s, v in cnt.items()]
-        ev = _stage(lambda: meas.get_expectation_values(op))
-        out["measured"] = ev if _is_err(ev) else [[float(complex(v).real), float(complex(v).imag)] for v in ev.values]
-        # glue for the model: the indices rng.choice drew (trusted law, see TRUSTED[0]); same call shape as the code
-        p = [float(x) for _, x in probs_items]
-        if len(amps) < ns:
-            out["draws"] = [int(i) for i in np.random.default_rng(seed).choice(len(amps) + 1, size=ns, p=p + [0])]
-        else:
-            out["draws"] = [int(i) for i in np.random.default_rng(seed).choice(len(amps), size=ns, p=p)]
-    ex = _stage(exact_fn)
-    out["exact"] = ex if _is_err(ex) else float(ex)
-    return out
+        vec = [float(unrat(p)) for p in c["probs"]]
+        arg = vec if c.get("as") == "list" else np.array(vec)
+        d = m["create_dist"](arg)
+        out = {"dist": _canon_kv(d.distribution_dict, _bits_of_key)}
+        if c.get("twice"):
+            d.distribution_dict.clear()
+            d2 = m["create_dist"](arg)
+            out["dist2"] = _canon_kv(d2.distribution_dict, _bits_of_key)
+        return out
+    if k == "meas":
+        return _run_meas(m, c)
+    if k == "session":
+        return _run_session(m, c)
+    return _run_views(m, c, {})
 
 
 # ----------------------------------------------------------------------------------------- model side
 def _driver_op(o):
     g = o["g"]
     if "controlled" in g:
-        # multiply-controlled X (Toffoli family): the exact matrix is written out here, independently of the library
-        assert g["controlled"] == {"gate": "X", "angles": []}
+        # multiply-controlled X / RY / RX: the exact matrix is written out here, independently of the library
+        # (identity except for the 2x2 block of the target when every control is 1; (ch, sh) = (cos θ/2, sin θ/2))
+        inner = g["controlled"]
         d = 2 ** (g["k"] + 1)
         m = [[[1 if r == c2 else 0, 0] for c2 in range(d)] for r in range(d)]
-        m[d - 2], m[d - 1] = m[d - 1], m[d - 2]
+        if inner["gate"] == "X":
+            assert inner["angles"] == []
+            blk = [[[0, 0], [1, 0]], [[1, 0], [0, 0]]]
+        else:
+            ch, sh = (unrat(x) for x in inner["angles"][0])
+            if inner["gate"] == "RY":
+                blk = [[[rat(ch), 0], [rat(-sh), 0]], [[rat(sh), 0], [rat(ch), 0]]]
+            else:
+                assert inner["gate"] == "RX"
+                blk = [[[rat(ch), 0], [0, rat(-sh)]], [[0, rat(-sh)], [rat(ch), 0]]]
+        for a in range(2):
+            for b in range(2):
+                m[d - 2 + a][d - 2 + b] = blk[a][b]
         return {"m": m, "qs": o["qs"]}
+    if "custom" in g:
+        return {"m": g["m"], "qs": o["qs"]}
     return {"gate": g["gate"], "angles": g["angles"], "qs": o["qs"]}
+
+
+def _views_request(c, out):
+    if _width(c) > 8:
+        return None  # wide registers: the exact model is too slow there; judged by the oracle only
+    payload = {"n_samples": c["n_samples"], "draws": out.get("draws", []) if isinstance(out, dict) else [],
+               "operator": c["operator"]}
+    if "amps" in c:
+        payload["amps"] = c["amps"]
+    else:
+        payload["n"] = c["circuit"].get("n")
+        payload["ops"] = [_driver_op(o) for o in c["circuit"]["ops"]]
+    return ("views", payload)
+
+
+def _meas_trace(c):
+    """[(query op, the tuples the object holds at that moment)] – from the case alone (no library code)"""
+    how = c["init"].get("how", "ctor")
+    st = [tuple(int(b) for b in t) for t in c["init"]["tuples"]]
+    if how in ("from_counts", "add_counts"):
+        # built from a histogram: the shots are grouped by count string, in first-occurrence order
+        order = []
+        for t in st:
+            if t not in order:
+                order.append(t)
+        st = [t for u in order for t in [u] * st.count(u)]
+    trace = []
+    for o in c["ops"]:
+        if "q" in o:
+            trace.append((o, list(st)))
+            continue
+        k = o["m"]
+        if k == "replace":
+            st = [tuple(t) for t in o["tuples"]]
+        elif k == "set":
+            st[o["i"]] = tuple(o["tuple"])
+        elif k == "extend":
+            st = st + [tuple(t) for t in o["tuples"]]
+        elif k == "add_counts":
+            for s_, v in o["counts"]:
+                st = st + [tuple(int(b) for b in s_)] * v
+        elif k == "del":
+            st = st[:o["i"]] + st[o["i"] + 1:]
+        elif k == "reverse":
+            st = st[::-1]
+    return trace, st
 
 
 def requests(c, out):
@@ -452,16 +1301,18 @@ def requests(c, out):
         return [("freq", {"marked": c["marked"], "freqs": c["freqs"]})]
     if k == "dist":
         return [("dist", {"probs": c["probs"]})]
-    if "amps" in c and len(c["amps"]) > 256:
-        return []  # wide registers: the exact model is too slow there; judged by the oracle only
-    payload = {"n_samples": c["n_samples"], "draws": out.get("draws", []) if isinstance(out, dict) else [],
-               "operator": c["operator"]}
-    if "amps" in c:
-        payload["amps"] = c["amps"]
-    else:
-        payload["n"] = c["circuit"].get("n")
-        payload["ops"] = [_driver_op(o) for o in c["circuit"]["ops"]]
-    return [("views", payload)]
+    if k == "meas":
+        return [("meas", {"shots": [list(t) for t in st], "operator": o.get("operator", [])}) for o, st in _meas_trace(c)[0]]
+    if k == "session":
+        outs = out.get("steps", []) if isinstance(out, dict) else []
+        rs = []
+        for i, st in enumerate(c["steps"]):
+            r = _views_request(st, outs[i] if i < len(outs) else {})
+            assert r is not None
+            rs.append(r)
+        return rs
+    r = _views_request(c, out)
+    return [] if r is None else [r]
 
 
 def _status(x):
@@ -480,6 +1331,104 @@ def _cmp_kv(name, impl, model, keyf):
     return None
 
 
+def _cmp_measured(name, mi, mm, scale):
+    if _is_err(mi) or isinstance(mm, str):
+        if _status(mi) != (mm if isinstance(mm, str) else None):
+            return f"{name}: impl {str(mi)[:100]} model {str(mm)[:100]}"
+        return None
+    if len(mi) != len(mm):
+        return f"{name}: {len(mi)} values, model {len(mm)}"
+    for a, b in zip(mi, mm):
+        if abs(complex(a[0], a[1]) - common.cyc_to_complex(b)) > TOL * scale:
+            return f"{name}: impl {mi} model {[common.cyc_to_complex(x) for x in mm]}"
+    return None
+
+
+def _cmp_mdist(name, mi, mm):
+    if _is_err(mi) or isinstance(mm, str):
+        if _status(mi) != (mm if isinstance(mm, str) else None):
+            return f"{name}: impl {str(mi)[:100]} model {str(mm)[:100]}"
+        return None
+    if [kv[0] for kv in mi] != [kv[0] for kv in mm]:
+        return f"{name}: keys/order differ: impl {[kv[0] for kv in mi][:8]} model {[kv[0] for kv in mm][:8]}"
+    for (k1, v1), (_, v2) in zip(mi, mm):
+        if abs(v1 - float(unrat(v2))) > 1e-12:
+            return f"{name}: value at key {k1}: impl {v1} model {v2}"
+    return None
+
+
+def _compare_pass(c, out, r, tag=""):
+    msg = _cmp_kv(tag + "get_outcome_probs", out["outcome_probs"], r["outcome_probs"], str)
+    if msg:
+        return msg
+    msg = _cmp_kv(tag + "exact distribution", out["dist"], r["dist"], list)
+    if msg:
+        return msg
+    for name, mname in (("samples", "samples"), ("counts", "counts"), ("counts2", "counts")):
+        if name not in out:
+            continue
+        mi, mm = out[name], r[mname]
+        if _is_err(mi) or isinstance(mm, str):
+            if _status(mi) != (mm if isinstance(mm, str) else None):
+                return f"{tag}{name}: impl {str(mi)[:100]} model {str(mm)[:100]}"
+        elif mi != mm:
+            return f"{tag}{name}: impl {str(mi)[:160]} model {str(mm)[:160]} (draws {out.get('draws')})"
+    scale = 1 + sum(abs(_cplx(t["c"])) for t in c["operator"])
+    msg = _cmp_measured(tag + "Measurements.get_expectation_values", out["measured"], r["measured"], scale)
+    if msg:
+        return msg
+    if "measured_b" in out:
+        msg = _cmp_measured(tag + "Measurements.get_expectation_values(bessel)", out["measured_b"], r["measured"], scale)
+        if msg:
+            return msg
+    if "mdist" in out and "mdist" in r and not (_is_err(out["mdist"]) and out["mdist"]["err"] == "err:empty"):
+        for name in ("mdist", "edist"):
+            if name in out:
+                msg = _cmp_mdist(tag + ("Measurements.get_distribution" if name == "mdist" else
+                                        "get_measurement_outcome_distribution(circuit, n)"), out[name], r["mdist"])
+                if msg:
+                    return msg
+    mi, mm = out["exact"], r["exact"]
+    if _is_err(mi) or isinstance(mm, str):
+        if _status(mi) != (mm if isinstance(mm, str) else None):
+            return f"{tag}get_exact_expectation_values: impl {str(mi)[:100]} model {str(mm)[:100]}"
+    elif abs(mi - common.cyc_to_complex(mm).real) > TOL * scale:
+        return f"{tag}get_exact_expectation_values: impl {mi} model {common.cyc_to_complex(mm).real}"
+    return None
+
+
+def _compare_views(c, out, r):
+    if isinstance(r, dict) and "driver_error" in r:
+        return "driver error: " + r["driver_error"]
+    if not isinstance(out, dict) or "wf" not in out:
+        return f"implementation produced no wavefunction: {out}"
+    mw, iw = r.get("wf"), out["wf"]
+    if isinstance(mw, str) or _is_err(iw):
+        if (mw if isinstance(mw, str) else None) != _status(iw):
+            return f"wavefunction: impl {str(iw)[:100]} model {str(mw)[:100]}"
+        return None
+    for tag, o in (("", out), ("second pass: ", out.get("again"))):
+        if o is None:
+            continue
+        iw = o["wf"]
+        if _is_err(iw):
+            return f"{tag}wavefunction: impl {str(iw)[:100]} model has one"
+        if len(mw) != len(iw):
+            return f"{tag}wavefunction length: impl {len(iw)} model {len(mw)}"
+        for name in ("wf", "wf0"):
+            if name not in o:
+                continue
+            if _is_err(o[name]) or len(o[name]) != len(mw):
+                return f"{tag}{name}: impl {str(o[name])[:100]} model has {len(mw)} amplitudes"
+            for i, (a, b) in enumerate(zip(o[name], mw)):
+                if abs(complex(a[0], a[1]) - common.cyc_to_complex(b)) > TOL:
+                    return f"{tag}{name} amplitude {i}: impl {a} model {common.cyc_to_complex(b)}"
+        msg = _compare_pass(c, o, r, tag)
+        if msg:
+            return msg
+    return None
+
+
 def compare(c, out, resp):
     r = resp[0]
     if isinstance(r, dict) and "driver_error" in r:
@@ -490,59 +1439,60 @@ def compare(c, out, resp):
             if _status(out) != (r if isinstance(r, str) and r.startswith("err:") else None):
                 return f"get_expectation_value_from_frequencies: impl {out} model {r}"
             return None
-        if "value" not in out or abs(out["value"] - float(unrat(r))) > 1e-12:
-            return f"get_expectation_value_from_frequencies: impl {out} model {r}"
+        for name in ("value", "value2"):
+            if name == "value2" and name not in out:
+                continue
+            if name not in out or _is_err(out[name]) or abs(out[name] - float(unrat(r))) > 1e-12:
+                return f"get_expectation_value_from_frequencies ({name}): impl {out} model {r}"
         return None
     if k == "dist":
-        got = [[kv[0], kv[1]] for kv in out.get("dist", [])]
         want = [[kv[0], float(unrat(kv[1]))] for kv in r]
-        if got != want:
-            return f"create_bitstring_distribution…: impl {got[:6]} model {want[:6]}"
+        for name in ("dist", "dist2"):
+            if name == "dist2" and name not in out:
+                continue
+            got = [[kv[0], kv[1]] for kv in out.get(name, [])]
+            if got != want:
+                return f"create_bitstring_distribution… ({name}): impl {got[:6]} model {want[:6]}"
         return None
-    # views
-    if not isinstance(out, dict) or "wf" not in out:
-        return f"implementation produced no wavefunction: {out}"
-    mw, iw = r.get("wf"), out["wf"]
-    if isinstance(mw, str) or _is_err(iw):
-        if (mw if isinstance(mw, str) else None) != _status(iw):
-            return f"wavefunction: impl {str(iw)[:100]} model {str(mw)[:100]}"
+    if k == "meas":
+        if not isinstance(out, dict) or "q" not in out:
+            return f"implementation produced no query results: {out}"
+        trace, _ = _meas_trace(c)
+        if len(out["q"]) != len(trace) or len(resp) != len(trace):
+            return "number of query results differs"
+        for i, ((o, st), got, rr) in enumerate(zip(trace, out["q"], resp)):
+            if isinstance(rr, dict) and "driver_error" in rr:
+                return "driver error: " + rr["driver_error"]
+            tag = f"query {i} ({o['q']}) after the history: "
+            if o["q"] == "counts":
+                if _is_err(got) or got != rr["counts"]:
+                    return f"{tag}get_counts impl {str(got)[:120]} model {str(rr['counts'])[:120]}"
+            elif o["q"] == "dist":
+                if not st:
+                    continue
+                msg = _cmp_mdist(tag + "get_distribution", got, rr["mdist"])
+                if msg:
+                    return msg
+            else:
+                scale = 1 + sum(abs(_cplx(t["c"])) for t in o["operator"])
+                msg = _cmp_measured(tag + "get_expectation_values", got, rr["measured"], scale)
+                if msg:
+                    return msg
         return None
-    if len(mw) != len(iw):
-        return f"wavefunction length: impl {len(iw)} model {len(mw)}"
-    for i, (a, b) in enumerate(zip(iw, mw)):
-        if abs(complex(a[0], a[1]) - common.cyc_to_complex(b)) > TOL:
-            return f"wavefunction amplitude {i}: impl {a} model {common.cyc_to_complex(b)}"
-    msg = _cmp_kv("get_outcome_probs", out["outcome_probs"], r["outcome_probs"], str)
-    if msg:
-        return msg
-    msg = _cmp_kv("exact distribution", out["dist"], r["dist"], list)
-    if msg:
-        return msg
-    for name in ("samples", "counts"):
-        mi, mm = out[name], r[name]
-        if _is_err(mi) or isinstance(mm, str):
-            if _status(mi) != (mm if isinstance(mm, str) else None):
-                return f"{name}: impl {str(mi)[:100]} model {str(mm)[:100]}"
-        elif mi != mm:
-            return f"{name}: impl {str(mi)[:160]} model {str(mm)[:160]} (draws {out.get('draws')})"
-    scale = 1 + sum(abs(_cplx(t["c"])) for t in c["operator"])
-    mi, mm = out["measured"], r["measured"]
-    if _is_err(mi) or isinstance(mm, str):
-        if _status(mi) != (mm if isinstance(mm, str) else None):
-            return f"Measurements.get_expectation_values: impl {str(mi)[:100]} model {str(mm)[:100]}"
-    else:
-        if len(mi) != len(mm):
-            return f"Measurements.get_expectation_values: {len(mi)} values, model {len(mm)}"
-        for a, b in zip(mi, mm):
-            if abs(complex(a[0], a[1]) - common.cyc_to_complex(b)) > TOL * scale:
-                return f"Measurements.get_expectation_values: impl {mi} model {[common.cyc_to_complex(x) for x in mm]}"
-    mi, mm = out["exact"], r["exact"]
-    if _is_err(mi) or isinstance(mm, str):
-        if _status(mi) != (mm if isinstance(mm, str) else None):
-            return f"get_exact_expectation_values: impl {str(mi)[:100]} model {str(mm)[:100]}"
-    elif abs(mi - common.cyc_to_complex(mm).real) > TOL * scale:
-        return f"get_exact_expectation_values: impl {mi} model {common.cyc_to_complex(mm).real}"
-    return None
+    if k == "session":
+        outs = out.get("steps") if isinstance(out, dict) else None
+        if outs is None or len(outs) != len(c["steps"]) or len(resp) != len(c["steps"]):
+            return f"session produced no per-step outputs: {str(out)[:200]}"
+        for i, (st, o, rr) in enumerate(zip(c["steps"], outs, resp)):
+            msg = _compare_views(st, o, rr)
+            if msg:
+                return f"step {i} of {len(outs)} on the same long-lived objects: {msg}"
+        if "batch" in out and not _is_err(out["batch"]) and len(out["batch"]) == len(resp):
+            for i, (smp, rr) in enumerate(zip(out["batch"], resp)):
+                if isinstance(rr, dict) and isinstance(rr.get("samples"), list) and smp != rr["samples"]:
+                    return f"run_batch_and_measure, circuit {i}: impl {str(smp)[:120]} model {str(rr['samples'])[:120]}"
+        return None
+    return _compare_views(c, out, r)
 
 
 # ----------------------------------------------------------------------------------------- oracle
@@ -550,9 +1500,63 @@ def _sig(n, s):
     return "width-0-register" if n == 0 else s
 
 
+def _parity_avg(marked, shots):
+    return sum(Fraction((-1) ** sum(int(t[q]) for q in marked)) for t in shots) / len(shots)
+
+
+def _oracle_meas(c, out):
+    """one Measurements object: after any history of edits its count strings, distribution and expectation values are
+    those of the tuples it holds NOW (position q of the string = position q of the tuple = operator qubit q)"""
+    trace, final = _meas_trace(c)
+    if not isinstance(out, dict) or "q" not in out or len(out["q"]) != len(trace):
+        return ("impl-raise", f"no query results: {str(out)[:200]}")
+    for i, ((o, st), got) in enumerate(zip(trace, out["q"])):
+        where = f"query {i} of the history on one Measurements object, which now holds {len(st)} shots {st[:6]}…: "
+        widths = {len(t) for t in st}
+        if len(widths) > 1:
+            continue  # ragged shots: outside the property's domain
+        w = widths.pop() if widths else 0
+        cnt = {}
+        for t in st:
+            key = "".join(str(b) for b in t)
+            cnt[key] = cnt.get(key, 0) + 1
+        if o["q"] == "counts":
+            if _is_err(got):
+                return ("history-counts", where + f"get_counts raised {got}")
+            if dict(map(tuple, got)) != cnt:
+                return ("history-counts", where + f"get_counts gives {got} but the position-q strings of the tuples give {cnt}")
+        elif o["q"] == "dist":
+            if not st or w == 0:
+                continue
+            if _is_err(got):
+                return ("history-distribution", where + f"get_distribution raised {got}")
+            gd = {tuple(kv[0]): kv[1] for kv in got}
+            want = {tuple(int(b) for b in key): v / len(st) for key, v in cnt.items()}
+            if set(gd) != set(want) or any(abs(gd[key] - want[key]) > 1e-12 for key in want):
+                return ("history-distribution", where + f"get_distribution gives {got} but the tuples give {want}")
+        else:
+            opspec = o["operator"]
+            if not st or w == 0 or any(int(q) >= w for t in opspec for q, _ in t["ops"]):
+                continue
+            if not all(p_ == "Z" for t in opspec for _, p_ in t["ops"]):
+                continue
+            if _is_err(got):
+                return ("history-measured-expectation", where + f"get_expectation_values raised {got}")
+            if len(got) != len(opspec):
+                return ("history-measured-expectation", where + "wrong number of expectation values")
+            scale = 1 + sum(abs(_cplx(t["c"])) for t in opspec)
+            for t, v in zip(opspec, got):
+                wantv = _cplx(t["c"]) * float(_parity_avg([int(q) for q, _ in t["ops"]], st))
+                if abs(complex(v[0], v[1]) - wantv) > TOL * scale:
+                    return ("history-measured-expectation",
+                            where + f"term {t}: value from measurements {v}, eigenvalue average over the tuples {wantv}")
+    if out.get("final") != [list(t) for t in final]:
+        return None  # (the container itself is not a view; nothing to say)
+    return None
+
+
 def oracle(c, out):
     """the property's sentences by numpy / Fraction brute force on the implementation's outputs only"""
-    import numpy as np
     k = c["kind"]
     if isinstance(out, dict) and "exc" in out:
         return ("impl-raise", f"implementation raised {out['exc']}: {out.get('msg')}")
@@ -564,19 +1568,73 @@ def oracle(c, out):
             return ("frequencies-raise", f"get_expectation_value_from_frequencies raised {out}")
         tot = sum(v for _, v in c["freqs"])
         want = sum(Fraction(v) * (-1) ** sum(int(s[q]) for q in c["marked"]) for s, v in c["freqs"]) / tot
-        if abs(out["value"] - float(want)) > 1e-12:
-            return ("frequencies-parity", f"expectation from counts {out['value']} but position-q parity average is {float(want)}")
+        for name in ("value", "value2"):
+            if name not in out:
+                continue
+            if _is_err(out[name]):
+                return ("frequencies-raise", f"get_expectation_value_from_frequencies raised {out[name]} when called again with the same arguments")
+            if abs(out[name] - float(want)) > 1e-12:
+                return ("frequencies-parity", f"expectation from counts {out[name]} ({name}) but position-q parity average is {float(want)}")
         return None
     if k == "dist":
         probs = [float(unrat(p)) for p in c["probs"]]
         n = int(math.log2(len(probs)))
-        got = {tuple(kv[0]): kv[1] for kv in out["dist"]}
-        for i, p in enumerate(probs):
-            if got.get(_msb_bits(i, n)) != p:
-                return ("dist-key-order", f"probability of basis index {i} = {p} but key {_msb_bits(i, n)} holds {got.get(_msb_bits(i, n))}")
-        if len(got) != len(probs):
-            return ("dist-key-order", "wrong number of keys")
+        for name in ("dist", "dist2"):
+            if name not in out:
+                continue
+            got = {tuple(kv[0]): kv[1] for kv in out[name]}
+            for i, p in enumerate(probs):
+                if got.get(_msb_bits(i, n)) != p:
+                    return ("dist-key-order", f"({name}) probability of basis index {i} = {p} but key {_msb_bits(i, n)} holds {got.get(_msb_bits(i, n))}")
+            if len(got) != len(probs):
+                return ("dist-key-order", f"({name}) wrong number of keys")
         return None
+    if k == "meas":
+        return _oracle_meas(c, out)
+    if k == "session":
+        outs = out.get("steps") if isinstance(out, dict) else None
+        if outs is None or len(outs) != len(c["steps"]):
+            return ("impl-raise", f"session produced no per-step outputs: {str(out)[:200]}")
+        for i, (st, o) in enumerate(zip(c["steps"], outs)):
+            r = _oracle_views_twice(st, o)
+            if r is not None:
+                return (r[0], f"step {i} of {len(outs)} run on the same long-lived objects "
+                              f"({'Wavefunction' if 'amps' in st else 'simulator, operator'}"
+                              f"{', Measurements container' if c.get('container') else ''}): " + r[1])
+        if "batch" in out and all(st["n_samples"] >= 1 for st in c["steps"]):
+            import numpy as np
+            b = out["batch"]
+            if _is_err(b) or len(b) != len(c["steps"]):
+                return ("batch-raise", f"run_batch_and_measure on the circuits of the steps: {str(b)[:200]}")
+            for i, (st, smp) in enumerate(zip(c["steps"], b)):
+                n = _width(st)
+                probs = np.abs(_ref_state(st)) ** 2
+                if len(smp) < st["n_samples"]:
+                    return (_sig(n, "sample-count"), f"run_batch_and_measure, circuit {i}: {len(smp)} samples, {st['n_samples']} requested")
+                for t in smp:
+                    if isinstance(t, dict) or len(t) != n:
+                        return (_sig(n, "sample-length"), f"run_batch_and_measure, circuit {i}: outcome {t} for register width {n}")
+                    if any(x not in (0, 1) for x in t) or probs[_index_of(t)] < 1e-24:
+                        return (_sig(n, "sample-zero-prob"), f"run_batch_and_measure, circuit {i} of the batch: sampled tuple {t} has exact probability 0")
+        return None
+    return _oracle_views_twice(c, out)
+
+
+def _oracle_views_twice(c, out):
+    if isinstance(out, dict) and "exc" in out:
+        return ("impl-raise", f"implementation raised {out['exc']}: {out.get('msg')}")
+    r = _oracle_views(c, out)
+    if r is None and isinstance(out, dict) and out.get("again") is not None:
+        r = _oracle_views(c, out["again"])
+        if r is not None:
+            how = ("after the caller edited the objects returned by the first pass" if c.get("twice") == "poison"
+                   else "asked a second time")
+            r = (r[0], f"second pass over the same objects ({how}): " + r[1])
+    return r
+
+
+def _oracle_views(c, out):
+    import numpy as np
     # ---- views
     n = _width(c)
     if _is_err(out.get("wf")):
@@ -586,6 +1644,20 @@ def oracle(c, out):
     wf = np.array([complex(a[0], a[1]) for a in out["wf"]])
     if wf.shape != ref.shape or np.max(np.abs(wf - ref)) > TOL:
         return (_sig(n, "wavefunction-qubit-order"), f"state vector {wf.tolist()[:8]} differs from gates-on-qubit-q reference {ref.tolist()[:8]}")
+    if "wf0" in out:
+        if _is_err(out["wf0"]):
+            return (_sig(n, "wavefunction-raise"), f"get_wavefunction(circuit, initial_state=|0…0>) raised: {out['wf0']}")
+        w0 = np.array([complex(a[0], a[1]) for a in out["wf0"]])
+        if w0.shape != ref.shape or np.max(np.abs(w0 - ref)) > TOL:
+            return (_sig(n, "wavefunction-qubit-order"), f"state vector from the explicit initial state |0…0> {w0.tolist()[:8]} differs from gates-on-qubit-q reference {ref.tolist()[:8]}")
+    if "wfk" in out:
+        k0 = c["seed"] % (2 ** n)
+        if _is_err(out["wfk"]):
+            return (_sig(n, "wavefunction-raise"), f"get_wavefunction(circuit, initial_state=basis state {k0}) raised: {out['wfk']}")
+        refk = _ref_state(c, start=k0)
+        wk = np.array([complex(a[0], a[1]) for a in out["wfk"]])
+        if wk.shape != refk.shape or np.max(np.abs(wk - refk)) > TOL:
+            return (_sig(n, "wavefunction-qubit-order"), f"state vector from initial basis state {k0} = {_msb_bits(k0, n)}: {wk.tolist()[:8]} differs from gates-on-qubit-q reference {refk.tolist()[:8]}")
     # (get_outcome_probs is an internal view – its key convention is checked by the correspondence only; the property
     #  speaks about the state vector, the exact distribution, the samples, the counts and the expectation values)
     if _is_err(out["dist"]):
@@ -614,14 +1686,27 @@ def oracle(c, out):
                 return (_sig(n, "sample-zero-prob"), f"sampled tuple {t} has exact probability {probs[_index_of(t)] if all(b in (0, 1) for b in t) else None}")
             if abs(got.get(tuple(t), 0.0)) < 1e-24:
                 return (_sig(n, "sample-zero-prob"), f"sampled tuple {t} has probability 0 in the exact distribution object")
-        if _is_err(out["counts"]):
-            return (_sig(n, "counts-raise"), f"get_counts raised: {out['counts']}")
         cnt = {}
         for t in samples:
             s = "".join(str(b) for b in t)
             cnt[s] = cnt.get(s, 0) + 1
-        if dict(map(tuple, out["counts"])) != cnt:
-            return (_sig(n, "counts-key"), f"counts {out['counts']} but position-q strings of the samples give {cnt}")
+        for name in ("counts", "counts2"):
+            if name not in out:
+                continue
+            if _is_err(out[name]):
+                return (_sig(n, "counts-raise"), f"get_counts raised: {out[name]}")
+            if dict(map(tuple, out[name])) != cnt:
+                return (_sig(n, "counts-key"), f"get_counts {'(asked again) ' if name == 'counts2' else ''}{out[name]} but position-q strings of the samples give {cnt}")
+        if n >= 1:
+            want_d = {tuple(int(b) for b in s): v / ns for s, v in cnt.items()}
+            for name, what in (("mdist", "Measurements.get_distribution"), ("edist", "get_measurement_outcome_distribution(circuit, n_samples)")):
+                if name not in out:
+                    continue
+                if _is_err(out[name]):
+                    return (_sig(n, "empirical-distribution"), f"{what} raised: {out[name]}")
+                gd = {tuple(kv[0]): kv[1] for kv in out[name]}
+                if set(gd) != set(want_d) or any(abs(gd[key] - want_d[key]) > 1e-12 for key in want_d):
+                    return (_sig(n, "empirical-distribution"), f"{what} gives {out[name][:8]} but the sampled tuples give {want_d}")
     opspec = c["operator"]
     qubits = [int(q) for t in opspec for q, _ in t["ops"]]
     in_range = all(q < n for q in qubits)
@@ -639,27 +1724,49 @@ def oracle(c, out):
                         f"Measurements.get_expectation_values raised: {out['measured']}")
             if len(out["measured"]) != len(opspec):
                 return (_sig(n, "measured-expectation"), "wrong number of expectation values")
-            for t, v in zip(opspec, out["measured"]):
-                marked = [int(q) for q, _ in t["ops"]]
-                avg = sum(Fraction((-1) ** sum(s[q] for q in marked)) for s in samples) / len(samples)
-                wantv = _cplx(t["c"]) * float(avg)
-                if abs(complex(v[0], v[1]) - wantv) > TOL * scale:
-                    return (_sig(n, "measured-expectation"), f"term {t}: value from measurements {v}, eigenvalue average over the shots {wantv}")
+            for name in ("measured", "measured_b"):
+                if name not in out:
+                    continue
+                if _is_err(out[name]) or len(out[name]) != len(opspec):
+                    return (_sig(n, "measured-expectation"), f"get_expectation_values(use_bessel_correction=True): {str(out[name])[:200]}")
+                for t, v in zip(opspec, out[name]):
+                    marked = [int(q) for q, _ in t["ops"]]
+                    avg = sum(Fraction((-1) ** sum(s[q] for q in marked)) for s in samples) / len(samples)
+                    wantv = _cplx(t["c"]) * float(avg)
+                    if abs(complex(v[0], v[1]) - wantv) > TOL * scale:
+                        return (_sig(n, "measured-expectation"), f"term {t}: value from measurements {v}{' (with Bessel correction)' if name == 'measured_b' else ''}, eigenvalue average over the shots {wantv}")
     return None
 
 
 def distribution(cases, outs):
     widths, regimes, errs = {}, {"fewer": 0, "equal": 0, "more": 0}, {}
+    drive = {"once": 0, "twice": 0, "twice_poisoned": 0, "symbolic_bound": 0, "operator_forms": 0}
+    hist = {"session_steps": 0, "sessions_with_container": 0, "wavefunction_sessions": 0, "meas_queries": 0,
+            "meas_same_length_replacements": 0}
+    flat = []
     for c, o in zip(cases, outs):
-        if c["kind"] != "views":
-            continue
+        if c["kind"] == "views":
+            flat.append((c, o))
+        elif c["kind"] == "session":
+            hist["session_steps"] += len(c["steps"])
+            hist["sessions_with_container"] += 1 if c.get("container") else 0
+            hist["wavefunction_sessions"] += 1 if "amps" in c["steps"][0] else 0
+            so = o.get("steps", []) if isinstance(o, dict) else []
+            flat += [(st, so[i] if i < len(so) else None) for i, st in enumerate(c["steps"])]
+        elif c["kind"] == "meas":
+            hist["meas_queries"] += sum(1 for x in c["ops"] if "q" in x)
+            hist["meas_same_length_replacements"] += sum(1 for x in c["ops"] if x.get("m") in ("replace", "set"))
+    for c, o in flat:
         n = _width(c)
         widths[n] = widths.get(n, 0) + 1
         ns = c["n_samples"]
         regimes["fewer" if ns < 2 ** n else "equal" if ns == 2 ** n else "more"] += 1
+        drive["twice_poisoned" if c.get("twice") == "poison" else "twice" if c.get("twice") else "once"] += 1
+        drive["symbolic_bound"] += 1 if c.get("param") else 0
+        drive["operator_forms"] += 1 if c.get("op_form") else 0
         if isinstance(o, dict):
             for f in ("samples", "measured", "exact"):
                 if _is_err(o.get(f)):
                     key = f + ":" + o[f]["err"]
                     errs[key] = errs.get(key, 0) + 1
-    return {"widths": widths, "sampling_regimes": regimes, "error_kinds": errs}
+    return {"widths": widths, "sampling_regimes": regimes, "error_kinds": errs, "driving": drive, "histories": hist}
